@@ -60,6 +60,11 @@ CHECKS = {
    technique="TLA+ machine of the fc driver (FoDriver.tla) model-checked for safety and termination; fault vectors, a mutation campaign and scanner-critical buffers run through the real binary; black-box observations validated by TLC, which infers the unlogged read/parse/write outcomes (FoDriverTrace.tla)",
    text="The driver machine (announce, read, parse, write per argument, exit) is model-checked: exit 0 implies every requested file written, a failure is clean (diagnostic, nothing for the offending and later files), every behaviour terminates. Every run of the real binary - fault vectors (missing input, directory, unwritable destination, syntax error, infinite type, .foi), thousands of mutants of valid programs (truncation at every offset, token deletion/duplication/swap, indentation damage, unterminated constructs, stray bytes), self-referential / ill-typed / extreme definitions and short buffers over the scanner-critical alphabet - is observed black-box and accepted only if some behaviour of the machine explains it; hangs (20 s), Go runtime fatal errors and silent failures are rejections.",
    note="Trusted: the 20 s time-out as non-termination on inputs of this size; stderr classification of Go fatal errors; a gen file counts as complete when it exists and is non-empty. The character-level scanner model (FoLex) of the design is not built yet; scanner loops are exercised through the binary only."),
+ "C05": dict(
+   category="model_checking", design_ref="4.5", engine="FoDictOrder",
+   technique="TLA+ model of enumeration-order choice points and of fc's consumers of an enumeration (FoDictOrder.tla); TLC decides which consumers are order-independent and enumerates the schedules with a bounded number of perturbed calls from the recorded call sequence; each schedule is replayed on the real fc through the guarded dict hook; results validated by TLC (FoDictOrderTrace.tla)",
+   text="Every dict.Keys/Values/KVs call of a run is a scheduling choice. TLC checks, for all dictionaries up to 3 entries, that sort-then-first-match, iterate-register and set-union consumers are permutation independent and that first-match is independent exactly when at most one entry matches; from the call sequence recorded by the hook it enumerates all schedules with one perturbed call (reverse, rotations, adjacent transpositions). Each schedule, plus full reverse/rotate/random schedules and repeated runs of the un-hooked binary under Go's own map randomisation, must reproduce the canonical run's exit status and byte-identical files, for corpus programs built to stress the order-sensitive consumers, samples and fc's own sources.",
+   note="Trusted: the hook's canonical order (sort on printed key); systematic exploration is bounded (one perturbed call per schedule; sampled by seed for long runs in quick); nondeterminism that bypasses pkg/dict is only reachable by the repeated un-hooked runs."),
 }
 
 def cmd(pid, tier):
